@@ -2,6 +2,7 @@
 from xml.etree import ElementTree as ET
 
 from vlib import drive, gen, step, history, build, model
+from vlib.findings import h64
 
 PROP = 'C04'
 MOD = 'checks.c04'
@@ -22,7 +23,7 @@ RULE = (
     "under roCreate.  Non-trivial = merge succeeded and (>= 2 carried elements or a carried element "
     "of depth >= 3 or with attributes/tails).")
 ASSUMPTIONS = ['carried stories/items have fresh IDs, or the ID of the element they replace']
-MANDATORY = ['StorySend', 'StoryAppend', 'StoryInsert', 'StoryReplace', 'ItemInsert', 'ItemReplace',
+MANDATORY = ['via-collection', 'StorySend', 'StoryAppend', 'StoryInsert', 'StoryReplace', 'ItemInsert', 'ItemReplace',
              'RunningOrderReplace', 'MetaDataReplace', 'EAStoryReplace', 'EAItemReplace',
              'EAStoryInsert', 'EAItemInsert', 'multi-carried', 'deep-or-attributed',
              'storysend:body-not-last', 'storysend:body-first', 'storysend:nested-storyItem']
@@ -65,7 +66,30 @@ def record(col, ev):
     col.record(ev.case, ok and (multi or deep), classes, judge(ev), key=drive.ev_key(ev))
 
 
+def rejudge_collection(case):
+    import types
+    import warnings
+    from xml.etree import ElementTree as ET
+    from vlib import xmlcmp
+    from mosromgr.moscollection import MosCollection
+    msg = model.Msg(case['msg_xml'])
+    ex = model.expect(xmlcmp.state_of(ET.fromstring(case['ro_xml'])), msg)
+    obs = types.SimpleNamespace(before=case['ro_xml'], after=None, exc=None, parse_exc=None, cls_name=msg.kind)
+    with warnings.catch_warnings():
+        warnings.simplefilter('ignore')
+        try:
+            mc = MosCollection.from_strings([case['msg_xml'], case['ro_xml']], allow_incomplete=True)
+            obs.before = str(mc)
+            mc.merge(strict=True)
+        except Exception as e:
+            obs.exc = e
+        obs.after = str(mc)
+    return step.judge_payload(obs, ex, msg)
+
+
 def rejudge(case):
+    if case.get('via') == 'collection':
+        return rejudge_collection(case)
     if 'history' in case:
         return history.rejudge_history(case, MOD)
     return judge(drive.eval_step(case))
@@ -141,9 +165,56 @@ def shard_resend(args):
     return col
 
 
+def shard_via_collection(args):
+    """Single steps again, but delivered the way a collection delivers them: MosCollection.from_strings
+    ([roCreate, message]).merge(strict=False).  What arrives is judged with the same payload oracle."""
+    import types
+    import warnings
+    from xml.etree import ElementTree as ET
+    from vlib.findings import Collector
+    from vlib import xmlcmp
+    from mosromgr.moscollection import MosCollection
+    n, seed = args
+    col = Collector(PROP)
+
+    def one(case):
+        r, m = ET.fromstring(case['ro_xml']), ET.fromstring(case['msg_xml'])
+        if r.find('messageID') is None or m.find('messageID') is None:
+            return
+        for rid in m.iter('roID'):                      # a collection is about ONE running order
+            rid.text = r.find('roCreate').findtext('roID')
+            break
+        r.find('messageID').text, m.find('messageID').text = '100', '200'
+        ro_xml, msg_xml = ET.tostring(r, encoding='unicode'), ET.tostring(m, encoding='unicode')
+        msg = model.Msg(msg_xml)
+        if msg.kind not in model.PAYLOAD_KINDS:
+            return
+        ex = model.expect(xmlcmp.state_of(ET.fromstring(ro_xml)), msg)
+        obs = types.SimpleNamespace(before=ro_xml, after=None, exc=None, parse_exc=None, cls_name=msg.kind)
+        with warnings.catch_warnings():
+            warnings.simplefilter('ignore')
+            try:
+                mc = MosCollection.from_strings([msg_xml, ro_xml], allow_incomplete=True)
+                obs.before = str(mc)
+                mc.merge(strict=True)
+            except Exception as e:
+                obs.exc = e
+            try:
+                obs.after = str(mc)
+            except Exception:
+                return
+        c2 = {'ro_xml': ro_xml, 'msg_xml': msg_xml, 'via': 'collection'}
+        ok = obs.exc is None and (ex.resolves or msg.level == 'meta')
+        col.record(c2, ok, [msg.kind, 'via-collection'], step.judge_payload(obs, ex, msg), key=h64(ro_xml, msg_xml, 'mc'))
+    kw = dict(kinds=KINDS + ['roReplace', 'roMetadataReplace'], faults='none', rich=True, degenerate=False, min_stories=1)
+    drive.run_given(gen.step_case(**kw), one, n, seed)
+    return col
+
+
 def run(tier, seed, procs):
     quick = tier == 'quick'
     cols = drive.pool_map(shard_send_shapes, [None], 1)
+    cols += drive.pool_map(shard_via_collection, [(120 if quick else 6000, seed * 1000 + 900 + i) for i in range(4)], procs)
     cols += drive.pool_map(shard_resend, [None], 1)
     kw = dict(kinds=KINDS, faults='none', rich=True, degenerate=False, min_stories=1)
     shards, per = (8, 500) if quick else (16, 20000)
